@@ -33,6 +33,12 @@ func runC15(c *Ctx) {
 		return
 	}
 	info := pk.TypesInfo
+	// (0) the hook registry: Trigger walks an OrderedMap with ForEach while hooks unhook themselves
+	// (max trigger count) or are unhooked concurrently; the walk survives that only if a removed
+	// element keeps its own links
+	if pds := c.Load("ds"); pds != nil {
+		checkOmapRemovedKeepsLinks(r, pds)
+	}
 	// (1) Trigger family
 	nTrig := 0
 	for _, fd := range p.AllFuncDecls(ev) {
